@@ -41,15 +41,21 @@ OUTCOMES = ("normal", "Exception", "BaseException", "StopIteration", "StopAsyncI
 HANDLERS = ("none", "finally", "swallow", "reraise", "raise-new", "raise-new-from-none", "raise-same-type", "return", "yield-again", "raise-StopAsyncIteration", "raise-new-RuntimeError", "raise-new-RuntimeError-from-none", "finally-raising-RuntimeError")
 
 
-def make_gen(pre, handler, cont, log, E):
+def make_gen(pre, handler, cont, log, E, made=None):
+    made = [] if made is None else made
+
+    def mk(exc):
+        made.append(exc)  # every exception object the generator itself creates
+        return exc
+
     async def gen():
         log.append("start")
         if pre == 0:
-            raise PreErr("before yield")
+            raise mk(PreErr("before yield"))
         if pre == 1:
             return
         if pre == 3:
-            raise RuntimeError("runtime error before yield")
+            raise mk(RuntimeError("runtime error before yield"))
         if handler == 0:
             yield VALUE
             log.append("resumed")
@@ -70,31 +76,31 @@ def make_gen(pre, handler, cont, log, E):
                 elif handler == 3:
                     raise
                 elif handler == 4:
-                    raise NewErr("new")
+                    raise mk(NewErr("new"))
                 elif handler == 5:
-                    raise NewErr("new") from None
+                    raise mk(NewErr("new")) from None
                 elif handler == 6:
-                    raise type(e)("same type")
+                    raise mk(type(e)("same type"))
                 elif handler == 7:
                     return
                 elif handler == 8:
                     yield OTHER
                     log.append("resumed-after-second-yield")
                 elif handler == 9:
-                    raise StopAsyncIteration("from handler")
+                    raise mk(StopAsyncIteration("from handler"))
                 elif handler == 10:
-                    raise RuntimeError("new runtime error")
+                    raise mk(RuntimeError("new runtime error"))
                 elif handler == 11:
-                    raise RuntimeError("new runtime error") from None
+                    raise mk(RuntimeError("new runtime error")) from None
                 else:
-                    raise RuntimeError("new runtime error")
+                    raise mk(RuntimeError("new runtime error"))
         if cont == 1:
             yield OTHER
             log.append("resumed-after-extra-yield")
         elif cont == 2:
-            raise AfterErr("afterwards")
+            raise mk(AfterErr("afterwards"))
         elif cont == 3:
-            raise StopAsyncIteration("raised by the generator after it was resumed")
+            raise mk(StopAsyncIteration("raised by the generator after it was resumed"))
         log.append("end")
 
     return gen
@@ -126,9 +132,10 @@ def make_exc(outcome):
 def run_one(wrap, pre, handler, cont, outcome, D):
     log = []
     E = make_exc(outcome)
-    gen = make_gen(pre, handler, cont, log, E)
+    made = []
+    gen = make_gen(pre, handler, cont, log, E, made)
     factory = wrap(gen)
-    res = {}
+    res = {"made": made}
 
     async def prog():
         try:
@@ -149,12 +156,15 @@ def run_one(wrap, pre, handler, cont, outcome, D):
     return r[1], log, res, E
 
 
-def classify(out, E):
+def classify(out, E, made=()):
     if out[0] == "ok":
         return ("suppressed-or-normal",)
     e = out[1]
     if E is not None and e is E:
         return ("same-object",)
+    for i, m in enumerate(made):
+        if e is m:
+            return ("generator-object", i, type(e).__name__)  # the very object the generator raised
     return ("type", type(e).__name__)
 
 
@@ -184,7 +194,7 @@ def h_cm(pre: int, handler: int, cont: int, outcome: int):
         return finish(fail("contextmanager:suspended-with-nonsuspending-arguments"), False)
     if oa is None or os_ is None:
         return finish(fail("contextmanager:harness-program-escaped"), False)
-    ca, cs = classify(oa, Ea), classify(os_, Es)
+    ca, cs = classify(oa, Ea, ra["made"]), classify(os_, Es, rs["made"])
     tag = "contextmanager"
     if ra.get("entered", "-") is not rs.get("entered", "-"):
         ok = fail("%s:entered-value-differs" % tag, (ra, rs)) and ok
@@ -192,7 +202,7 @@ def h_cm(pre: int, handler: int, cont: int, outcome: int):
         # deliberate difference: a GeneratorExit leaving the block always propagates as that
         # same object where the stdlib propagates it, suppresses it or raises another
         # GeneratorExit; the generator is closed rather than thrown into
-        if cs[0] in ("same-object", "suppressed-or-normal") or cs == ("type", "GeneratorExit"):
+        if cs[0] in ("same-object", "suppressed-or-normal") or (cs[0] in ("type", "generator-object") and cs[-1] == "GeneratorExit"):
             if ca != ("same-object",):
                 ok = fail("%s:GeneratorExit-not-propagated-unchanged" % tag, (ca, cs, la)) and ok
         elif ca != cs:
